@@ -74,6 +74,19 @@ def render() -> str:
         raise TranslatorError(f"empty-name fallbacks differ between the snake-case sanitisers: {fallbacks}")
     snake_fallback = fallbacks["sanitize_method_name"]
 
+    # IRSchema.__post_init__: does it keep a name that already is sanitiser output (re.fullmatch on the output shape)?
+    irmod = _parse("ir.py")
+    post = _find_func(_find_class(irmod, "IRSchema"), "__post_init__")
+    calls = [n for n in ast.walk(post) if isinstance(n, ast.Call) and isinstance(n.func, ast.Attribute)
+             and n.func.attr == "sanitize_class_name"]
+    if len(calls) != 1:
+        raise TranslatorError(f"IRSchema.__post_init__: expected one sanitize_class_name call, found {len(calls)}")
+    shapes = [n.args[0].value for n in ast.walk(post) if isinstance(n, ast.Call) and isinstance(n.func, ast.Attribute)
+              and n.func.attr == "fullmatch" and n.args and isinstance(n.args[0], ast.Constant)]
+    if shapes not in ([], [r"_?(?:[A-Z][a-z]*|[0-9]+)+_?"]):
+        raise TranslatorError(f"IRSchema.__post_init__: unexpected name-shape pattern(s) {shapes}")
+    keeps_output = bool(shapes)
+
     emod = _parse("visit/model/enum_generator.py")
     eg = _find_class(emod, "EnumGenerator")
     sfn = _find_func(eg, "_generate_member_name_for_string_enum")
@@ -108,6 +121,7 @@ def render() -> str:
         f"Definition s_unnamed_class : list N := {cstr(unnamed[0])}.",
         f"Definition s_client : list N := {cstr(client)}.",
         f"Definition s_unnamed : list N := {cstr(snake_fallback)}.",
+        f"Definition post_init_keeps_output : bool := {'true' if keeps_output else 'false'}.",
         f"Definition s_member_ : list N := {cstr('MEMBER_')}.",
         f"Definition s_member_empty : list N := {cstr('MEMBER_EMPTY_STRING')}.",
         f"Definition s_value_ : list N := {cstr('VALUE_')}.",
